@@ -512,9 +512,14 @@ func (p *pep440Extension) compare(e extension) int {
 		qExt = &zeroPEP440
 	}
 
-	// Epochs win.
+	// Epochs win, except against the unbounded upper end of a span (∞.∞.∞),
+	// which is above the versions of every epoch.
 	if pExt.epoch != qExt.epoch {
-		return sgn(pExt.epoch, qExt.epoch)
+		pInf := p.version.getNum(0) == infinity
+		qInf := q.version.getNum(0) == infinity
+		if pInf == qInf {
+			return sgn(pExt.epoch, qExt.epoch)
+		}
 	}
 
 	// Release numbers.
